@@ -46,16 +46,28 @@ def run(ctx):
         ctx.ob('1e complete_plan-anchors', 'anchor', vc.path, 'complete_plan: one compare_exchange on dirty_header, one insert_value', len(cx) == 1 and len(iv) == 1, '%s %s' % (cx, iv))
         for s in iv:
             lib.result_guards(ctx, '1f header-logged-iff-dirty', vc, cx, s, 'slot 0 is logged depending on winning the dirty_header compare-exchange')
-            # ... and on nothing else: from the "flag was set" outcome every path logs the header
-            won = None
-            for bi in vc.normal_blocks():
-                t = vc.term(bi)
-                if t['k'] == 'switch' and t['vals'] == [0] and len(t['ts']) == 2 and op_place(t['a']) is not None and '.Result.0' in op_place(t['a'])[1:] and op_place(t['a'])[0] in [vc.term(c)['d'][0] for c in cx]:
-                    won = t['ts'][1]
-            w = vc.find_path([won], vc.return_blocks(), removed={s} | core.error_exit_blocks(vc)) if won is not None else ['?']
-            ctx.ob('1f2 header-logged-whenever-dirty', 'K1-must-pass', vc.path,
-                   'once the dirty flag was found set (and cleared), every path logs the header - no further condition (cached copies of the header can be stale after replay)',
-                   won is not None and w is None, 'no branch on the compare-exchange payload' if won is None else ('path skipping the header: ' + lib.short_path(vc, w) if w else ''))
+            # ... and on nothing else: every branch between the test-and-clear and the header write is decided by the outcome of
+            # that one atomic operation (a branch whose other side is an error exit is propagation, not a condition)
+            after = set()
+            for c in cx:
+                after |= vc.reaches(c)
+            errs = core.error_exit_blocks(vc)
+            extra = []
+            ndeps = 0
+            for (sw, yes, no) in vc.control_deps(s):
+                if sw not in after or vc.term(sw)['k'] != 'switch' or op_place(vc.term(sw)['a']) is None:
+                    continue
+                if all(vc.find_path([x], vc.return_blocks(), removed=errs) is None for x in no):
+                    continue
+                ndeps += 1
+                sl = backward_slice(vc, [op_place(vc.term(sw)['a'])])
+                oc = [c for c in sl.calls if not re.search(lib.ATOMIC_RMW[0][3:] if isinstance(lib.ATOMIC_RMW, list) else lib.ATOMIC_RMW, c)]
+                of = [f for f in sl.fields if f not in ('.ValueTable.dirty_header',) and not f.startswith(('.Result.', '.Option.'))]
+                if oc or of or (sl.binops - {'Not', 'Eq', 'Ne'}):
+                    extra.append('%s: %s' % (vc.loc(sw), ', '.join(sorted(oc)[:2] + sorted(of)[:3])))
+            ctx.ob('1f2 header-logged-whenever-dirty', 'K3-guard', vc.path,
+                   'once the dirty flag was found set (and cleared), the header is logged - no further condition (cached copies of the header can be stale after replay)',
+                   ndeps >= 1 and not extra, 'no branch on the outcome of the atomic test-and-clear' if ndeps == 0 else 'additional condition(s): ' + '; '.join(extra))
             a = vc.term(s)['a']
             ctx.ob('1g header-goes-to-slot-0', 'K8-const', vc.path, 'the header is written to index 0', len(a) > 2 and a[2].get('i') == 0, '')
     for fn in ('column::HashColumn::complete_plan', 'btree::BTreeTable::complete_plan'):
